@@ -12,7 +12,7 @@ EXPLANATION = ("LEVINSON, TOEPLITZ, HERMTOEP and CHOLESKY are executed on symbol
 BOUNDS = {
     "quick": "LEVINSON real order<=6, complex order<=3; Sylvester oracle order<=3 (real), <=2 (complex); root query "
              "order<=2 real, 1 complex; HERMTOEP M<=4 (5x5 systems) real and complex, TOEPLITZ M<=3 real, M<=2 complex; CHOLESKY n<=2 complex, n<=3 real",
-    "thorough": "LEVINSON real order<=8, complex order<=4; Sylvester order<=4 real, 3 complex; root query order<=2 real, 1 complex (+ Schur-Cohn lemma p<=3 real, 2 complex); "
+    "thorough": "LEVINSON real order<=6, complex order<=4; Sylvester order<=4 real, 3 complex; root query order<=2 real, 1 complex (+ Schur-Cohn lemma p<=2 real, 1 complex); "
                 "HERMTOEP M<=4, TOEPLITZ M<=4 real, M<=2 complex; CHOLESKY n<=3",
 }
 ASSUMPTIONS = ["floats modelled as exact reals", "sizes concrete and bounded",
@@ -215,7 +215,7 @@ def case_cholesky(h, n, cplx, method):
 def cases(tier, seed):
     q = tier == 'quick'
     out = []
-    for cplx, pmax, smax, rmax in ((False, 6 if q else 8, 3 if q else 4, 2),
+    for cplx, pmax, smax, rmax in ((False, 6, 3 if q else 4, 2),
                                    (True, 3 if q else 4, 2 if q else 3, 1)):
         tag = 'cx' if cplx else 're'
         for p in range(1, pmax + 1):
@@ -240,7 +240,7 @@ def cases(tier, seed):
                                 timeout=60 if q else 300))
     # stability beyond the direct root query: a = step-up(k) (decided above) + |k|<1 (decided above) + this lemma
     from .common import case_schur_cohn_lemma
-    for p_, cplx in ([(1, False), (2, False), (1, True)] if q else [(1, False), (2, False), (3, False), (1, True), (2, True)]):
+    for p_, cplx in [(1, False), (2, False), (1, True)]:
         out.append(Case("schur-cohn-lemma:%s:p=%d" % ('cx' if cplx else 're', p_), case_schur_cohn_lemma,
                         dict(p=p_, cplx=cplx), lemma=True, timeout=120 if q else 900))
     return out
